@@ -644,7 +644,7 @@ func TestC14Controlled(t *testing.T) {
 func TestC14FreeRunning(t *testing.T) {
 	defer vt.Watch("TestC14FreeRunning", 120*time.Second)()
 	rec := vt.For("C14")
-	rec.Rule("free-running (statistical, -race): 1-8 callers per side with nested call-backs (depth<=3) and 0/1ns deadlines over net.Pipe + IOCodec (jsonrpc2.ServePipe); every call returns its own token chain or its context's error; distinct by callers + depths")
+	rec.Rule("free-running (statistical, -race): 1-8 callers per side with nested call-backs (depth<=3) and 0/1ns deadlines over net.Pipe + IOCodec (jsonrpc2.ServePipe), one side sometimes built without a Client (its first calls arrive together); every call returns its own token chain or its context's error; distinct by callers + depths")
 	check(t, func(rt *rapid.T) {
 		rapid.SyncTest(rt, func(rt *rapid.T) {
 			rb, ra := jsonrpc2.ServePipe()
@@ -655,6 +655,11 @@ func TestC14FreeRunning(t *testing.T) {
 			}
 			if err := rb.Server.RegisterMethod("test_echo", svcB, "Echo"); err != nil {
 				rt.Fatal(err)
+			}
+			if rapid.IntRange(0, 2).Draw(rt, "builtWithoutClient") == 0 {
+				// a Remote built without a Client (the legacy client command does that; Call provides one): the first
+				// calls may well arrive together
+				ra.Client = nil
 			}
 			nA := rapid.IntRange(1, 8).Draw(rt, "callersA")
 			nB := rapid.IntRange(1, 8).Draw(rt, "callersB")
